@@ -115,4 +115,3 @@ func GenChainPlan(rt *rapid.T, p *GenParams) *ChainPlan {
 	}
 	return pl
 }
-
